@@ -169,6 +169,13 @@ impl Family for Recv {
                     ops.push(format!("D{}:{}", r, hex(&fresh(&mut counters, r, len_of(rng)))));
                 }
             }
+            // usually accept early, so that most of the script works on live sockets
+            for i in 0..nrem {
+                if rng.coin(3, 4) {
+                    ops.push("A".into());
+                    accepted[i] = true;
+                }
+            }
             let steps = rng.range(4, 28);
             for _ in 0..steps {
                 let r = rng.below(nrem as u64) as usize;
